@@ -34,6 +34,9 @@ const SAMPLER_MAGICS: [u32; 4] = [0x88408C04, 0x0C5EC1F1, 0x95E1F64D, 0xe5338c17
 
 struct MtrlSpec {
     textures: Vec<&'static [u8]>,
+    /// texture_count (and offsets) beyond the texture strings in the table: the scan runs on
+    /// into the following strings / past the end of the table
+    extra_textures: u8,
     shpk_name: &'static [u8],
     uv_sets: u8,
     color_sets: u8,
@@ -64,10 +67,13 @@ fn mtrl_seed(s: &MtrlSpec, rng: &mut Rng) -> Seed {
     }
     let mut b = B::new(false);
     b.u32(0x0103_0000).u16(0).u16(0).u16(heap.len() as u16).u16(name_off);
-    b.u8(s.textures.len() as u8).u8(s.uv_sets).u8(s.color_sets).u8(4 + s.additional_rest as u8);
+    b.u8(s.textures.len() as u8 + s.extra_textures).u8(s.uv_sets).u8(s.color_sets).u8(4 + s.additional_rest as u8);
     b.bound();
     for o in &offs {
         b.u32(*o);
+    }
+    for _ in 0..s.extra_textures {
+        b.u32(0);
     }
     for i in 0..(s.uv_sets + s.color_sets) {
         b.u16(name_off + 4 * i as u16).u16(i as u16);
@@ -119,6 +125,7 @@ pub fn mtrl_seeds(rng: &mut Rng) -> Vec<Seed> {
         // minimal: no textures, no tables
         MtrlSpec {
             textures: vec![],
+            extra_textures: 0,
             shpk_name: b"bg.shpk",
             uv_sets: 0,
             color_sets: 0,
@@ -132,6 +139,7 @@ pub fn mtrl_seeds(rng: &mut Rng) -> Vec<Seed> {
         // legacy colour table + legacy dye table
         MtrlSpec {
             textures: vec![b"chara/a_d.tex", b"chara/a_n.tex"],
+            extra_textures: 0,
             shpk_name: b"character.shpk",
             uv_sets: 1,
             color_sets: 1,
@@ -145,6 +153,7 @@ pub fn mtrl_seeds(rng: &mut Rng) -> Vec<Seed> {
         // Dawntrail tables, longer additional block
         MtrlSpec {
             textures: vec![b"t.tex"],
+            extra_textures: 0,
             shpk_name: b"characterlegacy.shpk",
             uv_sets: 0,
             color_sets: 2,
@@ -158,6 +167,7 @@ pub fn mtrl_seeds(rng: &mut Rng) -> Vec<Seed> {
         // opaque tables (nothing read), legacy 0x42 table without dye table
         MtrlSpec {
             textures: vec![b"x"],
+            extra_textures: 0,
             shpk_name: b"s",
             uv_sets: 2,
             color_sets: 0,
@@ -170,11 +180,40 @@ pub fn mtrl_seeds(rng: &mut Rng) -> Vec<Seed> {
         },
         MtrlSpec {
             textures: vec![],
+            extra_textures: 0,
             shpk_name: b"",
             uv_sets: 0,
             color_sets: 0,
             additional_rest: 0,
             table_flags: 0x4 | (0x42 << 4),
+            shader_keys: 0,
+            constants: vec![],
+            samplers: 0,
+            shader_values: 0,
+        },
+        // one texture more than texture strings: the shader package name is read as a path
+        MtrlSpec {
+            textures: vec![b"a.tex"],
+            extra_textures: 1,
+            shpk_name: b"n.shpk",
+            uv_sets: 0,
+            color_sets: 0,
+            additional_rest: 0,
+            table_flags: 0,
+            shader_keys: 0,
+            constants: vec![],
+            samplers: 0,
+            shader_values: 0,
+        },
+        // two more: the third scan starts at the end of the table (mtrl.rs:502)
+        MtrlSpec {
+            textures: vec![b"a.tex"],
+            extra_textures: 2,
+            shpk_name: b"n.shpk",
+            uv_sets: 0,
+            color_sets: 0,
+            additional_rest: 0,
+            table_flags: 0,
             shader_keys: 0,
             constants: vec![],
             samplers: 0,
